@@ -51,6 +51,10 @@ func init() {
 				cfg.StragglerP = []float64{0.03, 0.06, 0.1, 0.2}[r.Intn(4)]
 				cfg.PSilence = 0
 			}
+			if r.Bool(0.15) {
+				// every request travels through babble's real NetworkTransport
+				cfg.Wire = true
+			}
 			if r.Bool(0.3) {
 				// two (or more) honest views of one synthetic straggler-heavy history
 				cfg.Synthetic = true
